@@ -36,9 +36,9 @@ Section WithMac.
       if bytes_eqb (firstn (length CHALLENGE) message) CHALLENGE then
         Send (mac authkey (skipn (length CHALLENGE) message))
           (Recv RECV_LIMIT (fun response =>
-             if negb (bytes_eqb response WELCOME)
-             then Raise AuthenticationError
-             else k))
+             if bytes_eqb response WELCOME
+             then k
+             else Raise AuthenticationError))
       else Raise AssertionError).
 
   Definition do_step (authkey : bytes) (urandom : Z -> bytes) (s : hstep) (k : proc) : proc :=
